@@ -1,6 +1,7 @@
 package authz
 
 import (
+	"strings"
 	"context"
 
 	envoy "github.com/envoyproxy/go-control-plane/envoy/service/auth/v3"
@@ -153,6 +154,11 @@ func verifC01Step(pathShape int) {
 	vn.Assert("C01/refresh-grant", vn.And(len(gt) == 1, len(rt) == 1))
 	vn.Assert("C01/refresh-grant-values", vn.And(gt[0] == "refresh_token", rt[0] == read.tokens.RefreshToken, read.tokens.RefreshToken != ""))
 	vn.Assert("C01/idp-answered-200-with-body", env.idp.answer == 3)
+	// "renewed by a successful refresh exchange": what came back is a token response (OIDC Core
+	// 12.2 / RFC 6749 5.1: a JSON object with token_type, here Bearer) -- not an empty object, null
+	// or an error document under status 200, which renew nothing
+	body := env.idp.lastBody
+	vn.Assert("C01/refresh-answer-is-a-token-response", vn.And(body.kind == 3, body.ttKind == 1, strings.EqualFold(body.tokenType, "Bearer")))
 	vn.Assert("C01/refreshed-tokens-stored", write != nil)
 	if write != nil {
 		vn.Assert("C01/refreshed-tokens-stored-under-the-session", vn.And(write.id == carried, write.took, !write.failed))
